@@ -163,6 +163,7 @@ class NPProxy(object):
         # the five band calls interpolate the response at every pixel; other np.interp calls inside the module are not weights
         if np.size(r) == self._rec.get('npix'):
             self._rec['interp'].append(r)
+            self._rec.setdefault('interp_x', []).append(np.array(a[0], dtype='d').ravel())
         else:
             self._rec['other_interp'] = self._rec.get('other_interp', 0) + 1
         return r
@@ -202,23 +203,35 @@ def run_filter(flux, wave, mask, toair):
     return res, rec
 
 
+def build_mask(vals, dtype, nT, nx):
+    """mask values (ints, floats, 'nan' / 'inf' / '-inf') in the storage type `dtype` ('bool', 'i1'..'i8', 'u1'..'u8', '>i4', 'f4', 'f8')"""
+    if dtype == 'bool':
+        return (np.array([int(v) for v in vals], dtype='i8') != 0).reshape(nT, nx)
+    if 'f' in dtype:
+        return np.array([float(v) for v in vals], dtype=dtype).reshape(nT, nx)
+    return np.array([int(v) for v in vals], dtype=object).astype(dtype).reshape(nT, nx)
+
+
 def filter_job(j):
     nT, nx = j['nT'], j['nx']
     dt = j.get('dtype', 'd')
     flux = np.array(j['flux'], dtype=dt).reshape(nT, nx)
     flux2 = np.array(j['flux2'], dtype=dt).reshape(nT, nx)
     loglam = np.array([[l0 + dl * k for k in range(nx)] for l0, dl in zip(j['loglam0'], j['dloglam'])], dtype='d')
-    if j['wave'] == 'waveimg':
-        wave = {'kind': 'waveimg', 'img': 10.0 ** loglam}
-    else:
+
+    def mk_wave(ll):
+        if j['wave'] == 'waveimg':
+            return {'kind': 'waveimg', 'img': 10.0 ** ll}
         x = np.tile(np.arange(nx, dtype='d'), nT).reshape(nT, nx)
-        wave = {'kind': 'wset', 'wset': xy2traceset(x, loglam, ncoeff=3)}
+        return {'kind': 'wset', 'wset': xy2traceset(x, ll, ncoeff=3)}
+    wave = mk_wave(loglam)
     mask = None
     if j.get('mask') is not None:
-        mask = np.array(j['mask'], dtype='i4').reshape(nT, nx)
+        mask = build_mask(j['mask'], j.get('mask_dtype', 'i4'), nT, nx)
     toair = bool(j.get('toair'))
     a, b, c = j['a'], j['b'], j['c']
     keep = flux.copy()
+    mkeep = None if mask is None else mask.copy()
     r1, rec = run_filter(flux, wave, mask, toair)
     unchanged = bool(np.array_equal(keep, flux))
     r2, _ = run_filter(flux2, wave, mask, toair)
@@ -234,13 +247,27 @@ def filter_job(j):
            'res_const': [fls(r) for r in rc], 'input_unchanged': unchanged, 'shape': list(r1.shape), 'res_dtype': str(r1.dtype)}
     if rl is not None:
         out['res_levels'] = [fls(r) for r in rl]
+    # the same pixels stored in the opposite order (flux, wavelength solution and mask reversed along the pixel axis)
+    try:
+        rr, _ = run_filter(np.ascontiguousarray(flux[:, ::-1]), mk_wave(np.ascontiguousarray(loglam[:, ::-1])),
+                           None if mask is None else np.ascontiguousarray(mask[:, ::-1]), toair)
+        out['res_rev'] = [fls(r) for r in rr]
+    except Exception as e:  # noqa: BLE001
+        out['res_rev_err'] = err(e)
     out['other_interp_calls'] = rec.get('other_interp', 0)
+    rec_junk = None
+    junk = None
     if mask is not None:
+        bad = mask != 0
+        out['mask_unchanged'] = bool(mask.dtype == mkeep.dtype and np.array_equal(mask, mkeep, equal_nan=True)) if mask.dtype.kind == 'f' \
+            else bool(mask.dtype == mkeep.dtype and np.array_equal(mask, mkeep))
+        out['mask_dtype'] = str(mask.dtype)
         junk = flux.copy()
-        junk[mask != 0] = np.array(j['junk'], dtype=dt)[: int((mask != 0).sum())] if j.get('junk') else 1.0e6
-        rj, _ = run_filter(junk, wave, mask, toair)
+        junk[bad] = np.array(j['junk'], dtype=dt)[: int(bad.sum())] if j.get('junk') else 1.0e6
+        rj, rec_junk = run_filter(junk, wave, mask, toair)
         out['res_junk'] = [fls(r) for r in rj]
         out['good_per_trace'] = [int((mask[t] == 0).sum()) for t in range(nT)]
+        out['bad_per_trace'] = [int(bad[t].sum()) for t in range(nT)]
     # bounds that do not depend on recorded weights: interpolated values lie between unmasked neighbours
     good = (mask == 0) if mask is not None else np.ones(flux.shape, dtype=bool)
     out['good_min'] = [fl(flux[t][good[t]].min()) if good[t].any() else None for t in range(nT)]
@@ -274,6 +301,14 @@ def filter_job(j):
         out['resp'] = [[fls(resp[i][t]) for i in range(5)] for t in range(nT)]
         if raw is not None:
             out['fitted'] = [fls(raw[t]) for t in range(nT)]
+        xs = rec.get('interp_x') or []
+        if len(xs) == 5 and all(np.array_equal(xs[0], x) for x in xs[1:]):
+            out['lam'] = [fls(xs[0].reshape(nT, nx)[t]) for t in range(nT)]     # the wavelengths handed to np.interp
+        if wave['kind'] == 'waveimg':
+            out['waveimg_in'] = [fls(wave['img'][t]) for t in range(nT)]
+        if mask is not None and rec_junk is not None and rec_junk['flux_interp'] is not None:
+            out['junk_flux'] = [fls(junk[t]) for t in range(nT)]
+            out['fi_junk'] = [fls(rec_junk['flux_interp'][t]) for t in range(nT)]
     return out
 
 
